@@ -94,7 +94,25 @@ def run_stress(spec, col: Collector):
                 col.not_reached(f"stress harness: {mech}: {msg[:200]}")
 
 
+def sweep_stale_segments():
+    """Segments of shards that were killed by a watchdog (prefix v<pid mod 100000><case>): remove those whose process is gone."""
+    import glob
+    import re
+    live = set()
+    for d in os.listdir("/proc"):
+        if d.isdigit():
+            live.add(int(d) % 100000)
+    for f in glob.glob("/dev/shm/v[0-9]*"):
+        m = re.match(r"v(\d{5})\d{3}", os.path.basename(f))
+        if m and int(m.group(1)) not in live:
+            try:
+                os.unlink(f)
+            except OSError:
+                pass
+
+
 def run_shard(spec, col: Collector):
+    sweep_stale_segments()
     if spec.get("kind") == "stress":
         return run_stress(spec, col)
     import logging
